@@ -289,4 +289,86 @@ theorem delivery_order {U : Universe} {B : Header → Prop} {Good : State → Pr
     · obtain ⟨b, hb, hid⟩ := List.mem_map.mp e
       rw [← hid]; exact hall b hb
 
+/-- all ancestors of `b` inside the delivered set `bs` were delivered, down to a block of the store -/
+inductive Rooted (s0 : State) (bs : List Header) : Header → Prop
+  | base {b : Header} : b ∈ bs → stored s0 b.parent → Rooted s0 bs b
+  | step {b c : Header} : b ∈ bs → c ∈ bs → c.id = b.parent → Rooted s0 bs c → Rooted s0 bs b
+
+/-- **delivery of an arbitrary (not parent-closed) block set**: whatever the order, the connected
+    blocks are exactly those all of whose ancestors were delivered; the others wait in the pool,
+    and no orphan whose parent is stored is left -/
+theorem delivery_general {U : Universe} {B : Header → Prop} {Good : State → Prop} (hA : Accepting B Good) {s0 : State}
+    (hI0 : Inv U s0) (hG0 : Good s0) (he : s0.orphans = []) {bs : List Header}
+    (hv : ∀ b ∈ bs, B b ∧ Valid U b) (hnd : (bs.map (·.id)).Nodup) (hfresh : ∀ b ∈ bs, ¬ stored s0 b.id)
+    (hdefs : bs.length ≤ s0.defs.length) {σ : List Header} (hσ : σ.Perm bs) :
+    (∀ b ∈ bs, stored (σ.foldl deliver s0) b.id ↔ Rooted s0 bs b) ∧
+    (∀ b ∈ bs, b ∈ (σ.foldl deliver s0).orphans ↔ ¬ Rooted s0 bs b) ∧
+    (∀ o ∈ (σ.foldl deliver s0).orphans, o ∈ bs) ∧
+    NoLeft (σ.foldl deliver s0) ∧
+    (∀ i, stored s0 i → stored (σ.foldl deliver s0) i) ∧
+    Inv U (σ.foldl deliver s0) ∧ Good (σ.foldl deliver s0) := by
+  have h0 : RunInv U Good s0 [] s0 := by
+    refine ⟨hI0, hG0, ?_, rfl, fun _ h => h, fun _ h => Or.inl h, ?_, ?_⟩
+    · intro o ho; rw [he] at ho; simp at ho
+    · intro o ho; rw [he] at ho; simp at ho
+    · intro d hd; simp at hd
+  have hr := run_deliver hA σ [] s0 h0 (by simpa using (hσ.map (·.id)).nodup_iff.mpr hnd)
+    (by
+      intro b hb
+      simp only [List.nil_append] at hb
+      have hb' := hσ.mem_iff.mp hb
+      exact ⟨(hv b hb').1, (hv b hb').2.coh, hfresh b hb'⟩)
+    (by simpa [hσ.length_eq] using hdefs)
+  simp only [List.nil_append] at hr
+  set s' := σ.foldl deliver s0
+  have hall : ∀ b ∈ bs, stored s' b.id ∨ b ∈ s'.orphans := fun b hb => hr.all b (hσ.mem_iff.mpr hb)
+  have hexcl : ∀ b, b ∈ s'.orphans → ¬ stored s' b.id := fun b hb => hr.inv.disjoint b hb
+  -- rooted blocks are stored
+  have hroot : ∀ b, Rooted s0 bs b → stored s' b.id := by
+    intro b hb
+    induction hb with
+    | @base b hm hp =>
+      rcases hall b hm with e | e
+      · exact e
+      · exact absurd (hr.mono _ hp) (hr.noLeft b e)
+    | @step b c hm _ hid _ ih =>
+      rcases hall b hm with e | e
+      · exact e
+      · exact absurd (hid ▸ ih) (hr.noLeft b e)
+  -- stored blocks of the set are rooted (induction on the height)
+  have hstored : ∀ n, ∀ b ∈ bs, b.height = n → stored s' b.id → Rooted s0 bs b := by
+    intro n
+    induction n using Nat.strongRecOn with
+    | _ n ihn =>
+      intro b hb hh hs
+      obtain ⟨hd, _, hdm, hdid⟩ := header_of_stored hs
+      have hcoh := hr.inv.cohH hd hdm
+      have hvb := (hv b hb).2
+      have hpe : hd.parent = b.parent := by rw [hcoh.1, hvb.coh.1, hdid]
+      have hhe : hd.height = b.height := by rw [hcoh.2, hvb.coh.2, hdid]
+      rcases hr.inv.closed hd hdm with e0 | e0
+      · have := hvb.height
+        omega
+      · rw [hpe] at e0
+        rcases hr.storedSub _ e0 with e1 | e1
+        · exact Rooted.base hb e1
+        · obtain ⟨c, hc, hcid⟩ := List.mem_map.mp e1
+          have hcb : c ∈ bs := hσ.mem_iff.mp hc
+          have hlt : c.height < n := by
+            have h1 := hvb.height
+            have h2 := (hv c hcb).2.coh.2
+            rw [← hcid, ← h2] at h1
+            omega
+          exact Rooted.step hb hcb hcid (ihn c.height hlt c hcb rfl (hcid ▸ e0))
+  refine ⟨fun b hb => ⟨hstored b.height b hb rfl, hroot b⟩, ?_, fun o ho => hσ.mem_iff.mp (hr.poolSub o ho),
+    hr.noLeft, hr.mono, hr.inv, hr.good⟩
+  intro b hb
+  constructor
+  · intro hm hro
+    exact hexcl b hm (hroot b hro)
+  · intro hn
+    rcases hall b hb with e | e
+    · exact absurd (hstored b.height b hb rfl e) hn
+    · exact e
+
 end BytomModel.Lemmas.NodeDelivery
